@@ -11,6 +11,13 @@ Correspondence
 Oracle / partial (runtime, shipped families): shape, same seed => identical, different seeds =>
 different, PIT values of every dimension ~ U(0,1) and pairs of PIT columns ~ product measure
 within distribution-free bounds at error probability 1e-12 per comparison.
+  (D) joint models over EVERY shipped family (Normal, von Mises with vector parameters through
+      ConditionalDistribution - compared modulo 2 pi -, LogNormalNormFit, ScipyDistribution subclasses, ...):
+      PIT with independently evaluated per-row parameters; n in {1,2,3} (shape, reproducibility; 3-D chains);
+      random_state None / int / Generator; seed pairs (s, t); second model object; object re-use.
+  (E) univariate small n, random_state=None, seed pairs.
+  (F) models FITTED to data (predefined descriptions, 2-D and 3-D), then sampled: per-row conditional law
+      evaluated from the fitted parameters the model reports.
 """
 import math
 import warnings
@@ -33,6 +40,76 @@ def ks_uniform(u):
     n = len(u)
     i = np.arange(1, n + 1)
     return float(max(np.max(i / n - u), np.max(u - (i - 1) / n)))
+
+
+def seed_partners(rng, seed):
+    """seeds t != seed with 0 <= t < 2**32 (valid for the legacy RandomState scipy builds from an int): the
+    neighbour, one with a single far bit flipped, an unrelated one"""
+    out = {seed + 1 if seed < 2**32 - 1 else seed - 1, seed ^ (1 << int(rng.integers(1, 32))),
+           int(rng.integers(0, 2**32))}
+    out.discard(seed)
+    return sorted(out)
+
+
+def pit_failures(ck, U, conds):
+    """distribution-free tests of a matrix of PIT values: every column ~ U(0,1) (DKW), pairs of columns ~ product
+    measure on a 4x4 partition (Hoeffding per cell, union over the 16 cells)"""
+    n, n_dim = U.shape
+    bad = []
+    eps = dkw_eps(n)
+    if not np.all(np.isfinite(U)):
+        return [("drawn_from_conditional_given_same_row", "PIT values are not finite")]
+    for i in range(n_dim):
+        d = ks_uniform(U[:, i])
+        ck.hyp_checked += 1
+        if d > eps:
+            bad.append(("drawn_from_conditional_given_same_row",
+                        f"dimension {i} (conditional on {conds[i]}): PIT KS {d:.4f} > {eps:.4f}"))
+    t = math.sqrt(math.log(2 * 16 / DELTA) / (2 * n))
+    for i in range(n_dim):
+        for k in range(i + 1, n_dim):
+            H, _, _ = np.histogram2d(U[:, i], U[:, k], bins=4, range=[[0, 1], [0, 1]])
+            dev = float(np.max(np.abs(H / n - 1 / 16)))
+            ck.hyp_checked += 1
+            if dev > t + 2 * eps:
+                bad.append(("rosenblatt_columns_independent", f"dims {i},{k}: cell deviation {dev:.4f} > {t + 2*eps:.4f}"))
+    return bad
+
+
+def none_failures(draw, shape):
+    """random_state=None: requested shape, finite values, two draws differ (fresh entropy each time)"""
+    a = np.asarray(draw(None))
+    b = np.asarray(draw(None))
+    if a.shape != shape or b.shape != shape:
+        return [("none_shape", f"random_state=None: shape {a.shape} / {b.shape}, expected {shape}")], a
+    if not (np.all(np.isfinite(a)) and np.all(np.isfinite(b))):
+        return [("none_finite", "random_state=None: sample contains non-finite values")], a
+    if np.array_equal(a, b):
+        return [("none_draws_differ", f"two draws with random_state=None are identical: {a.ravel()[:4].tolist()}")], a
+    return [], a
+
+
+def reproducibility_failures(rng, build, n, seed, first):
+    """`first` = build().draw_sample(n, random_state=seed) drawn by the caller on another object. Checks on a SECOND
+    model object: an earlier draw (other seed, other size) does not influence a later seeded draw; identically
+    seeded Generators give identical samples on two different objects; int seed repeats; seed pairs (s, t) differ."""
+    bad = []
+    m1, m2 = build(), build()
+    m1.draw_sample(n + 1, random_state=seed ^ 5)          # earlier draw on the same object
+    again = np.asarray(m1.draw_sample(n, random_state=seed))
+    if not np.array_equal(first, again):
+        bad.append(("reproduces_on_second_object_after_earlier_draw",
+                    f"int seed {seed}: draw on a second model object after an earlier draw differs from the first draw"))
+    g1 = np.asarray(m1.draw_sample(n, random_state=np.random.default_rng(seed)))
+    g2 = np.asarray(m2.draw_sample(n, random_state=np.random.default_rng(seed)))
+    if g1.shape != first.shape or not np.array_equal(g1, g2):
+        bad.append(("generator_reproduces_across_objects",
+                    f"identically seeded Generators (seed {seed}) on two model objects give different samples"))
+    for t in seed_partners(rng, seed):
+        if np.array_equal(first, np.asarray(m2.draw_sample(n, random_state=t))):
+            bad.append(("different_seeds_differ", f"seeds {seed} and {t} give identical samples"))
+            break
+    return bad
 
 
 # --------------------------------------------------------------------------- (A)
@@ -103,6 +180,14 @@ def process_exact(ck, case):
         other = np.asarray(model.draw_sample(n, random_state=seed + 1))
         if np.array_equal(other, again):
             bad.append(("different_seeds_differ", f"seeds {seed} and {seed+1} give identical samples"))
+        # object re-use: after the draw with another seed the SAME object reproduces the first sample ...
+        rs2 = seed if case["rs"] == "int" else np.random.default_rng(seed)
+        if not np.array_equal(got, np.asarray(model.draw_sample(n, random_state=rs2))):
+            bad.append(("reproduces_after_earlier_draw_on_same_object", f"seed {seed} ({case['rs']})"))
+        # ... and so does a second object; seed pairs beyond s/s+1
+        if seed < 2**32:
+            bad += reproducibility_failures(np.random.default_rng(seed), desc.build, n, seed, again)
+            ck.count("A_second_object_and_seed_pairs")
     for pred, detail in bad:
         ck.fail({"entry": "GlobalHierarchicalModel.draw_sample", "predicate": pred}, case, detail)
     if ans[0] != "OK":
@@ -233,11 +318,16 @@ def process_univariate(ck, rng, n):
             ck.fail({"entry": "Distribution.draw_sample", "predicate": pred, "family": name}, case, detail)
 
 
-def process_joint_stat(ck, rng, n):
+def joint_stat_case(rng, n):
     m = models.random_fam_model(rng, n_dim=int(rng.choice([2, 3])))
-    model = m.build()
     seed = 0 if rng.integers(0, 3) == 0 else int(rng.integers(0, 2**31))
-    case = {"part": "C", "model": m.describe(), "n": n, "seed": seed}
+    return {"part": "C", "model": m.describe(), "n": n, "seed": seed}
+
+
+def process_joint_stat(ck, case):
+    m = models.fam_model_from_desc(case["model"])
+    model = m.build()
+    n, seed = case["n"], case["seed"]
     ck.case(case, nontrivial=m.n_dependent() >= 1, sample=False)
     ck.count("part=C-joint")
     with np.errstate(all="ignore"), warnings.catch_warnings():
@@ -252,22 +342,7 @@ def process_joint_stat(ck, rng, n):
                 ci = m.cond[i]
                 U[:, i] = model.distributions[i].cdf(x[:, i]) if ci is None else \
                     model.distributions[i].cdf(x[:, i], given=x[:, ci])
-            eps = dkw_eps(n)
-            for i in range(m.n_dim):
-                d = ks_uniform(U[:, i])
-                ck.hyp_checked += 1
-                if d > eps:
-                    bad.append(("drawn_from_conditional_given_same_row",
-                                f"dimension {i} (conditional on {m.cond[i]}): PIT KS {d:.4f} > {eps:.4f}"))
-            # independence of PIT columns on a 4x4 partition (Hoeffding per cell, union over 16 cells)
-            t = math.sqrt(math.log(2 * 16 / DELTA) / (2 * n))
-            for i in range(m.n_dim):
-                for k in range(i + 1, m.n_dim):
-                    H, _, _ = np.histogram2d(U[:, i], U[:, k], bins=4, range=[[0, 1], [0, 1]])
-                    dev = float(np.max(np.abs(H / n - 1 / 16)))
-                    ck.hyp_checked += 1
-                    if dev > t + 2 * eps:
-                        bad.append(("rosenblatt_columns_independent", f"dims {i},{k}: cell deviation {dev:.4f} > {t + 2*eps:.4f}"))
+            bad += pit_failures(ck, U, m.cond)
             g1 = np.asarray(model.draw_sample(n, random_state=np.random.default_rng(seed)))
             g2 = np.asarray(model.draw_sample(n, random_state=np.random.default_rng(seed)))
             if not (np.array_equal(x, np.asarray(model.draw_sample(n, random_state=seed))) and np.array_equal(g1, g2)):
@@ -300,7 +375,7 @@ def main(ck):
     n = 1000000 if thorough else 20000
     process_univariate(ck, rng, n)
     for _ in range(30 if thorough else 8):
-        process_joint_stat(ck, rng, 200000 if thorough else 20000)
+        process_joint_stat(ck, joint_stat_case(rng, 200000 if thorough else 20000))
 
 
 def replay(ck, payload):
